@@ -5,7 +5,7 @@
 
 use crate::readers::{CheckedReader, DequeReader, LoggingWriter};
 use crate::term::*;
-use rl2tp::avp::types::result_code::{CdnCode, CodeValue, StopCcnCode};
+use rl2tp::avp::types::result_code::{CdnCode, CodeValue, Error as RcError, StopCcnCode};
 use rl2tp::avp::types::{self, RandomVector};
 use rl2tp::avp::AVP;
 use rl2tp::common::{DecodeError, Reader, SliceReader, VecWriter, Writer};
@@ -653,6 +653,45 @@ fn run(f: &[&str]) -> Option<String> {
                 }
             }
         }
+        "rtp" => {
+            // the round trip of `rt`, with the message encoded into a writer that already holds a prefix and decoded
+            // from the octets after it
+            let p = unhex(f.get(1)?)?;
+            let t = TMsg::parse(f.get(2)?)?;
+            let m = t.to_crate()?;
+            let e = enc_msg_into(&p, &m);
+            match &e.data {
+                None => "enc=panic".to_string(),
+                Some(full) => {
+                    let d = &full[p.len().min(full.len())..];
+                    let dec = dec_slice_raw(d, &strict());
+                    let expect = match &t {
+                        TMsg::Control { tid, sid, ns, nr, avps, .. } => {
+                            TMsg::Control { len: d.len() as u16, tid: *tid, sid: *sid, ns: *ns, nr: *nr, avps: avps.clone() }
+                        }
+                        TMsg::Data { p, len, tid, sid, nsnr, off, data } => TMsg::Data {
+                            p: *p,
+                            len: *len,
+                            tid: *tid,
+                            sid: *sid,
+                            nsnr: *nsnr,
+                            off: None,
+                            data: data[(off.unwrap_or(0) as usize).min(data.len())..].to_vec(),
+                        },
+                    };
+                    let tag = if matches!(t, TMsg::Control { .. }) { "c03-rt" } else { "c04-rt" };
+                    let mut v = vec![];
+                    match &dec {
+                        Some((Ok(m2), 0)) if *m2 == expect => {}
+                        other => v.push(format!("FAIL:{}:behind-a-prefix-want-{}-got-{}", tag, expect.render(), show(other).replace(' ', "_"))),
+                    }
+                    if full.len() < p.len() || full[..p.len()] != p[..] {
+                        v.push("FAIL:c09-append:prefix-changed".to_string());
+                    }
+                    format!("enc={} dec={} | {}", hex(d), show(&dec), join(v))
+                }
+            }
+        }
         "rta" => {
             let t = TAvp::parse(f.get(1)?)?;
             let a = to_crate(&t)?;
@@ -729,6 +768,19 @@ fn run(f: &[&str]) -> Option<String> {
                     match &r2 {
                         Some((Ok(m2), rem2)) if m2 == m && *rem2 == s.len() => {}
                         other => v.push(format!("FAIL:c08-sfx:with-suffix-{}", show(other).replace(' ', "_"))),
+                    }
+                    // the default entry point (version checking alone) stops at the declared end as well
+                    let vonly = ValidationOptions { reserved: ValidateReserved::No, version: ValidateVersion::Yes, unused: ValidateUnused::No };
+                    if let Some((Ok(mv), _)) = dec_slice_raw(&b2, &vonly) {
+                        let d = guard(|| {
+                            let mut r = SliceReader::from(&b2[..]);
+                            let res = Message::<&[u8]>::try_read(&mut r);
+                            (res.map(|m| TMsg::from_crate(&m)), r.len())
+                        });
+                        match &d {
+                            Some((Ok(m3), rem3)) if *m3 == mv && *rem3 == s.len() => {}
+                            other => v.push(format!("FAIL:c08-sfx-default:default-entry-with-suffix-{}", show(other).replace(' ', "_"))),
+                        }
                     }
                     format!("a={} b={} | {}", show(&a), show(&r2), join(v))
                 }
@@ -1129,13 +1181,16 @@ fn run(f: &[&str]) -> Option<String> {
                 let d = enc_avp_into(&[], &AVP::MessageType(*m)).data?;
                 out.push(format!("{:?}={}", m, ((d[6] as u16) << 8) | d[7] as u16));
             }
+            // the number a named value encodes to is read off the wire (no reliance on a particular integer
+            // conversion of the enumeration types)
             for e in ERROR_TYPES.iter() {
-                let v: u16 = (*e).into();
-                out.push(format!("{:?}={}", e, v));
+                let a = AVP::ResultCode(types::ResultCode { code: CodeValue::from(1u16), error: Some(RcError { error_type: *e, error_message: None }) });
+                let d = enc_avp_into(&[], &a).data?;
+                out.push(format!("{:?}={}", e, ((d[8] as u16) << 8) | d[9] as u16));
             }
             for p in PROXY_TYPES.iter() {
-                let v: u16 = (*p).into();
-                out.push(format!("{:?}={}", p, v));
+                let d = enc_avp_into(&[], &AVP::ProxyAuthenType(*p)).data?;
+                out.push(format!("{:?}={}", p, ((d[6] as u16) << 8) | d[7] as u16));
             }
             for x in 0..16u16 {
                 if let Ok(c) = StopCcnCode::try_from(x) {
